@@ -9,11 +9,12 @@ ALL = ['C%02d' % i for i in range(1, 21)]
 def main() -> None:
     checks = []
     claimed = set()
+    ready = set((ROOT / 'tools' / 'claimed.txt').read_text().split())
     for f in sorted((ROOT / 'harness').glob('c[0-9][0-9].py')):
         mod = importlib.import_module(f.stem)
         c = mod.Check
         m = getattr(c, 'manifest', None)
-        if not m:
+        if not m or c.id not in ready:
             continue
         claimed.add(c.id)
         checks.append({
